@@ -281,11 +281,12 @@ def random_cases(draw):
         drawn = draw(gen_range.int_range_cases(14, st.integers(33, 260), ("dec", "dec", "hex", "quoted")))
         allowed_text, allowed = drawn["description"], [list(item) for item in drawn["items"]]
         if not gen_range.member(allowed, 32):
-            position = draw(st.integers(0, len(allowed)))
-            parts = allowed_text.split(",")
-            parts.insert(position, draw(st.sampled_from(["32", '" "', "0x20"])))
-            allowed_text = ",".join(parts)
-            allowed.insert(position, [32, 32])
+            # in front or behind (the description may hold a quoted comma: it is not taken apart)
+            blank = draw(st.sampled_from(["32", '" "', "0x20"]))
+            if draw(st.booleans()):
+                allowed_text, allowed = blank + ", " + allowed_text, [[32, 32]] + allowed
+            else:
+                allowed_text, allowed = allowed_text + ", " + blank, allowed + [[32, 32]]
     elif shape == "none":
         allowed_text, allowed = None, None
     elif shape == "closed":
